@@ -50,6 +50,7 @@ type c01Deployment struct {
 	Keys            []ech.Key // client-facing server keys
 	BackendCfg      *tls.Config
 	PublicCfg       *tls.Config // public-name server (holds the real keys)
+	RouterSortsALPN bool        // the front server edits the slice ALPNProtos() returned
 	PublicName      string
 	mu              sync.Mutex
 	FrontConns      []*ech.Conn
@@ -75,6 +76,14 @@ func (d *c01Deployment) serve(front net.Conn, done chan<- struct{}) {
 	if err != nil {
 		front.Close()
 		return
+	}
+	if d.RouterSortsALPN {
+		// the router derives a key from what the accessors return: the slices are its own
+		p := c.ALPNProtos()
+		slices.Sort(p)
+		for i := range p {
+			p[i] = strings.ToUpper(p[i])
+		}
 	}
 	if d.Interloper != nil {
 		// another client reaches the server before this connection's backend has read a byte
@@ -332,6 +341,7 @@ func TestC01(t *testing.T) {
 			}
 		}
 		d := &c01Deployment{Keys: echKeys(keys...), BackendCfg: backend, PublicName: publicName}
+		d.RouterSortsALPN = rapid.Bool().Draw(t, "router_edits_alpn_slice")
 		if rapid.IntRange(0, 2).Draw(t, "interloper") == 0 {
 			d.Interloper = hello.Record(22, 0x0303, hello.GenPlain(t, "interloper_hello", hello.PlainOpts{}).Message())
 			cl = append(cl, "other_connection_accepted_in_between")
